@@ -35,7 +35,15 @@ func (v *VMValue) ToJSONRaw(save map[*VMValue]bool) ([]byte, error) {
 		x.TypeId = v.TypeId
 		x.Value.Expr = cd.Expr
 		if cd.Attrs != nil {
-			attrJson, err := cd.Attrs.ToJSON()
+			// 计算类型的属性里可以放进它自己(&x.k = &x)，与数组/字典一样要检查循环引用
+			if save == nil {
+				save = map[*VMValue]bool{}
+			}
+			if _, exists := save[v]; exists {
+				return nil, errors.New("值错误: 序列化时检测到循环引用")
+			}
+			save[v] = true
+			attrJson, err := cd.Attrs.toJSONRaw(save)
 			if err != nil {
 				return nil, err
 			}
